@@ -63,6 +63,9 @@ def binary_alphabet():
         for g in gs:
             A.append(("ic", (T, g)))
         A.append(("icarr", (T, tuple(gs))))
+    # temperature given as an array too: a thermal cycle (first = last) and a ramp, each point must equal its stand-alone value
+    A.append(("icTarr", ((673.15, 723.15, 673.15), (2000.0, 2000.0, 8000.0))))
+    A.append(("icTarr", ((673.15, 723.15, 723.15), (0.0, 2000.0, 8000.0))))
     return A
 
 
@@ -90,6 +93,11 @@ def do_query(t, kind, point, remove):
         else: out = t.impingementFactor(xa, T, removeCache=remove)
         return out, bool(np.array_equal(np.asarray(xa), np.asarray(keep)))
     T, g = point
+    if kind == "icTarr":
+        Ta, ga = np.array(T, dtype=float), np.array(g, dtype=float)
+        keep = (Ta.copy(), ga.copy())
+        out = t.getInterfacialComposition(Ta, ga)
+        return out, bool(np.array_equal(Ta, keep[0]) and np.array_equal(ga, keep[1]))
     if kind == "ic":
         return t.getInterfacialComposition(T, g), True
     ga = np.array(g, dtype=float)
@@ -157,6 +165,11 @@ def run_history(system, h, memo):
             key = (kind, point)
             e = {"e": "query", "kind": kind, "point": str(point), "remove": bool(remove), "vsmemo": vcmp(out, memo[key]),
                  "vsfirst": vcmp(out, first.get(key, out)), "argintact": intact}
+            if kind == "icTarr":
+                Ts_, gs_ = point
+                alone = [memo.get(("ic", (Ti, gi))) for Ti, gi in zip(Ts_, gs_)]
+                if all(a is not None for a in alone):
+                    e["vsbatch"] = vcmp(np.array([[a[0], a[1]] for a in alone]).T, np.array([np.atleast_1d(out[0]), np.atleast_1d(out[1])]))
             if kind == "icarr":
                 # the same points evaluated alone
                 T, gs = point
